@@ -11,7 +11,8 @@ Local Open Scope Z_scope.
 Theorem C13_outcome : forall s c v mandatory pre tpre f tpost rest,
   c <> 0%nat -> get_chan (s_chans s) c = Some v -> conn_healthy s -> s_io s = true ->
   s_sendfail s = false ->
-  c_state v = OPEN -> c_errs v = [] -> c_req v = [] -> c_resp v = [] -> c_confirm v = true ->
+  c_state v = OPEN -> c_errs v = [] -> c_req v = [] -> c_resp v = [] -> c_ret v = None ->
+  c_confirm v = true ->
   forallb (fun t => forallb (quiet c [NAck; NNack]) t) pre = true ->
   forallb (quiet c [NAck; NNack]) tpre = true ->
   forallb (quiet c [NAck; NNack]) tpost = true ->
